@@ -14,10 +14,16 @@ Local Notation "- a" := (fopp K a).
 
 (** completeness: the verifier's hashed blind commitment is the prover's, for all generators, values,
     randomness and challenges *)
-Theorem comm_complete gm gb m b r c :
-  let o := comm_prover K gm gb m b r c in
+Theorem comm_complete gm gb m b' n r c :
+  let o := comm_prover K gm gb m b' n r c in
   comm_verifier_blind K gm gb (co_C K o) (co_bp K o) (co_mp K o) c = co_blind K o.
 Proof. cbn. unfold comm_verifier_blind. ring. Qed.
+
+Theorem venc_complete gm ek m k n r c :
+  let o := venc_prover K gm ek m k n r c in
+  venc_verifier_r1 K (vo_c1 K o) (vo_bp K o) c = vo_r1 K o /\
+  venc_verifier_r2 K gm ek (vo_c2 K o) (vo_bp K o) (vo_mp K o) c = vo_r2 K o.
+Proof. cbn. unfold venc_verifier_r1, venc_verifier_r2. split; ring. Qed.
 
 (** equality: one shared nonce and equal values give equal responses, for every challenge *)
 Theorem eq_complete (n m c : K) : n + m * c = n + m * c.
@@ -29,18 +35,58 @@ Proof.
   transitivity (n + m * c - n); [ring|rewrite E; ring].
 Qed.
 
-(** C07 on the pinned tree: the Pedersen blinding of a commitment statement IS the claim's Schnorr nonce,
-    so the published values determine the committed value: C - gb*mp = m*(gm - c*gb).  Anyone can test a
-    guess m' by comparing C - gb*mp with m'*(gm - c*gb) — a dictionary attack on low-entropy claims. *)
-Theorem comm_leaks_value gm gb m b r c :
-  let o := comm_prover K gm gb m b r c in
+(** C07, commitment statements: perfect honest-verifier zero knowledge.  For every challenge and every two
+    values m, m' there is a bijection of the prover's randomness (b', n, r) under which the whole published and
+    hashed tuple (C, blind commitment, blinder response, message response) is identical: the view carries no
+    information about the committed value. *)
+Definition comm_shift (gm gb m m' c : K) (rnd : K * K * K) : K * K * K :=
+  let '(b', n, r) := rnd in
+  let d := m - m' in
+  (b' + d * gm / gb, n + c * d, r - c * (d * gm / gb)).
+
+Theorem comm_view_independent gm gb m m' b' n r c : gb <> f0 K ->
+  let '(b2, n2, r2) := comm_shift gm gb m m' c (b', n, r) in
+  comm_prover K gm gb m' b2 n2 r2 c = comm_prover K gm gb m b' n r c.
+Proof.
+  intros Hg. unfold comm_shift, comm_prover. f_equal; field; exact Hg.
+Qed.
+
+Theorem comm_shift_bijective gm gb m m' c rnd : gb <> f0 K ->
+  comm_shift gm gb m' m c (comm_shift gm gb m m' c rnd) = rnd.
+Proof.
+  intros Hg. destruct rnd as [[b' n] r]. unfold comm_shift. f_equal; [f_equal|]; field; exact Hg.
+Qed.
+
+(** C07, encryption statements: the published tuple is a function of the ElGamal ciphertext (c1, c2), the
+    challenge and the two responses, and for every (m, k) the responses are a bijective image of the two
+    nonces — hence uniform and independent of the plaintext.  What remains is the ciphertext itself, whose
+    hiding is the DDH assumption (not a theorem here). *)
+Theorem venc_view_from_ciphertext gm ek m k n r c :
+  let o := venc_prover K gm ek m k n r c in
+  vo_r1 K o = venc_verifier_r1 K (vo_c1 K o) (vo_bp K o) c /\
+  vo_r2 K o = venc_verifier_r2 K gm ek (vo_c2 K o) (vo_bp K o) (vo_mp K o) c.
+Proof. cbn. unfold venc_verifier_r1, venc_verifier_r2. split; ring. Qed.
+
+Theorem responses_uniform (m k c mp bp : K) :
+  exists n r, n + m * c = mp /\ r + c * k = bp /\
+    forall n' r', n' + m * c = mp -> r' + c * k = bp -> n' = n /\ r' = r.
+Proof.
+  exists (mp - m * c), (bp - c * k). split; [ring|]. split; [ring|].
+  intros n' r' H1 H2. split; [rewrite <- H1|rewrite <- H2]; ring.
+Qed.
+
+(** the pinned tree before fix b4949f5 (kept as the record of the finding): with the blinding factor equal to
+    the shared nonce the published values determine the committed value, C - gb*mp = m*(gm - c*gb), so a guess
+    m' is testable from public data *)
+Theorem comm_pinned_leaks_value gm gb m b r c :
+  let o := comm_prover_pinned K gm gb m b r c in
   co_C K o - gb * co_mp K o = m * (gm - c * gb).
 Proof. cbn. ring. Qed.
-Theorem comm_guess_test gm gb m m' b r c : gm - c * gb <> f0 K ->
-  let o := comm_prover K gm gb m b r c in
+Theorem comm_pinned_guess_test gm gb m m' b r c : gm - c * gb <> f0 K ->
+  let o := comm_prover_pinned K gm gb m b r c in
   (co_C K o - gb * co_mp K o = m' * (gm - c * gb) <-> m' = m).
 Proof.
-  intros Hg. cbn zeta. rewrite comm_leaks_value. split.
+  intros Hg. cbn zeta. rewrite comm_pinned_leaks_value. split.
   - intros E. symmetry. apply (fmul_cancel_l K Kf (gm - c * gb) _ _ Hg).
     transitivity (m * (gm - c * gb)); [ring|rewrite E; ring].
   - intros ->. reflexivity.
